@@ -67,6 +67,9 @@ TEMPLATES = {
     "exhaust": dict(sources=["src"], inter=["m1"], target="ex"),
     # both outputs of a multi-output plugin are needed by one consumer; one of them may be stored, the sibling recomputed
     "multi2": dict(sources=["src"], inter=["sa", "sb"], target="bo"),
+    # one output of a multi-output plugin goes through an overlap-window plugin (which lags behind by its window) and
+    # is joined again with the sibling output
+    "lagjoin": dict(sources=["src"], inter=["sa", "sb"], target="lj"),
     # overlap-window plugin (window = the two digits: look-back, look-ahead) on disjoint rows; plugin and whole-run
     # oracle are those of C09, here inside the pipeline variations of this property (processors, stored input)
     "overlap11": dict(sources=["src"], inter=["src"], target="ov"),
@@ -102,6 +105,29 @@ def P_both(obj, save_when=None):
     return Both
 
 
+def P_lagjoin(obj, save_when=None):
+    """depends_on = (sa, ov): per kept row (sa), val = number of rows of the lagging branch (ov) with the same id."""
+    import strax
+
+    class LagJoin(strax.Plugin):
+        provides = ("lj",)
+        depends_on = ("sa", "ov")
+        data_kind = "k_sa"
+        dtype = ctx.dt(ctx.VAL, obj)
+
+        def compute(self, **kw):
+            a, b = kw["k_sa"], kw["k_ov"]
+            r = ctx.new_arr(ctx.VAL, len(a), obj)
+            for q in range(len(a)):
+                r["time"][q], r["endtime"][q], r["id"][q] = a["time"][q], a["endtime"][q], a["id"][q]
+                r["val"][q] = sum(1 for p in range(len(b)) if int(b["id"][p]) == int(a["id"][q]))
+            return r
+
+    if save_when is not None:
+        LagJoin.save_when = save_when
+    return LagJoin
+
+
 def build_plugins(template, layouts, obj, thr, save_when=None, rechunk=True):
     """-> list of plugin classes for the template, reading sources from `layouts`."""
     P = []
@@ -119,6 +145,13 @@ def build_plugins(template, layouts, obj, thr, save_when=None, rechunk=True):
         P.append(ctx.P_source("src", "ksrc", layouts["src"], obj, **kw))
         P.append(ctx.P_split2(["sa", "sb"], "src", obj, thr, rechunk_on_save=rechunk, **kw))
         P.append(ctx.P_map("mb", "sb", obj, offset=3, **kw))
+    elif template == "lagjoin":
+        from harness import C09
+
+        P.append(ctx.P_source("src", "ksrc", layouts["src"], obj, **kw))
+        P.append(ctx.P_split2(["sa", "sb"], "src", obj, thr, rechunk_on_save=rechunk, **kw))
+        P.append(C09.P_overlap("ov", "sb", obj, 1, 1))
+        P.append(P_lagjoin(obj, **kw))
     elif template == "multi2":
         P.append(ctx.P_source("src", "ksrc", layouts["src"], obj, **kw))
         P.append(ctx.P_split2(["sa", "sb"], "src", obj, thr, rechunk_on_save=rechunk, **kw))
@@ -156,6 +189,8 @@ def oracle(template, rows, thr):
         return [dict(id=i, time=t, endtime=e, val=(e - t) + 3) for t, e, i in rows["src"]]
     if template == "multi2":
         return [dict(id=i, time=t, endtime=e, val=(e - t) + ite(e - t >= thr, 1, 0)) for t, e, i in rows["src"]]
+    if template == "lagjoin":
+        return [dict(id=i, time=t, endtime=e, keep=(e - t >= thr), val=1) for t, e, i in rows["src"]]
     if template == "loop":
         out = []
         for t, e, i in rows["ev"]:
@@ -181,7 +216,7 @@ def check_result(template, chunks, rows, thr, S, E, label):
         for q in range(len(d)):
             got.append({f: d[f][q] for f in d.dtype.names})
     want = oracle(template, rows, thr)
-    if template == "chain":
+    if template in ("chain", "lagjoin"):
         ids = [int(g["id"]) for g in got]
         prove(ids == sorted(set(ids)), label + ":rows duplicated or out of order")
         for w in want:
@@ -192,6 +227,8 @@ def check_result(template, chunks, rows, thr, S, E, label):
         for g in got:
             w = want[[x["id"] for x in want].index(int(g["id"]))]
             prove(sand(g["time"] == w["time"], g["endtime"] == w["endtime"]), label + ":row times changed")
+            if template == "lagjoin":
+                prove(g["val"] == w["val"], label + f":field val of row {w['id']} differs from the whole-run computation")
         return ids
     ids = [int(g["id"]) for g in got]
     prove(ids == [w["id"] for w in want], label + f":rows differ from the whole-run result: {ids}")
@@ -240,7 +277,7 @@ def run_pipeline(template, layouts, obj, thr, proc, stored_layouts=None, stored=
 
 
 def sym_pipeline(template, layout, proc="single", stored=(), stored_layout=None, lazy=True, max_messages=4,
-                 policy="lowest", dev=0, rechunk=True):
+                 policy="lowest", dev=0, rechunk=True, pin=False):
     """layout: {source: rows-per-chunk list}.  stored: intermediate types pre-made under stored_layout."""
     tpl = TEMPLATES[template]
     S = fresh_int("S", 0, H.T_MAX)
@@ -248,8 +285,16 @@ def sym_pipeline(template, layout, proc="single", stored=(), stored_layout=None,
     thr = fresh_int("thr", 0, H.T_MAX)
     layouts, st_layouts, rows = {}, {}, {}
     for src in tpl["sources"]:
-        disj = (template == "loop" and src == "ev") or template.startswith("overlap")
+        disj = (template == "loop" and src == "ev") or template.startswith("overlap") or template == "lagjoin"
         L = ctx.sym_layout(f"{src}_", layout[src], S, disjoint=disj, E=E)
+        if pin:
+            # pinned data (one path): the configuration is about the wiring / schedule, not about row placement
+            assume(sand(S == 0, thr == 5, E == 100 * len(layout[src])))
+            for j in range(len(layout[src])):
+                assume(L.bounds[j + 1] == 100 * (j + 1))
+            for q, (t, e, i) in enumerate(L.rows):
+                cj = [j for j, ch in enumerate(L.chunks) if any(r[2] == i for r in ch)][0]
+                assume(sand(t == 100 * cj + 10 + 20 * q, e == 100 * cj + 20 + 20 * q))
         layouts[src] = L
         rows[src] = L.rows
         if stored:
@@ -345,6 +390,10 @@ def _grid(tier):
             g.append(dict(template="multi2", layout={"src": lay}, stored=stored, stored_layout={"src": slay},
                           proc="threaded", lazy=lazy, policy="rr", max_messages=4))
     g.append(dict(template="multi2", layout={"src": [1, 1]}, proc="threaded", lazy=True, policy="lowest"))
+    g.append(dict(template="lagjoin", layout={"src": [1, 1, 1]}, pin=True))
+    for lazy in (True, False):
+        for pol in ("rr", "lowest"):
+            g.append(dict(template="lagjoin", layout={"src": [1, 1, 1]}, proc="threaded", lazy=lazy, policy=pol, pin=True))
     g.append(dict(template="overlap11", layout={"src": [2, 1]}, stored=["src"], stored_layout={"src": [1, 2]}))
     g.append(dict(template="overlap11", layout={"src": [1, 1]}, proc="threaded", lazy=True, policy="rr"))
     g.append(dict(template="overlap30", layout={"src": [2, 1]}, proc="threaded", lazy=False, policy="lowest", max_messages=2))
